@@ -18,6 +18,12 @@ CATALOG = {
     "C02": {
         "drivers": [("call", {"quick": 400, "thorough": 15000}, {})],
     },
+    "C03": {
+        "drivers": [("construct", {"quick": 400, "thorough": 20000}, {})],
+    },
+    "C04": {
+        "drivers": [("align", {"quick": 400, "thorough": 20000}, {})],
+    },
     "C06": {
         "drivers": [("deriv", {"quick": 500, "thorough": 20000}, {})],
     },
@@ -35,6 +41,12 @@ CATALOG = {
     },
     "C19": {
         "drivers": [("lead", {"quick": 500, "thorough": 20000}, {})],
+    },
+    "C12": {
+        "drivers": [("dtype", {"quick": 500, "thorough": 20000}, {})],
+    },
+    "C17": {
+        "drivers": [("frame", {"quick": 400, "thorough": 15000}, {})],
     },
     "C14": {
         "drivers": [("options", {"quick": 400, "thorough": 20000}, {})],
